@@ -416,6 +416,7 @@ pub(crate) async fn _mpc(ctx: &Context<'_, impl Channel>) -> Result<Vec<bool>, E
 fn validate(ctx: &Context<impl Channel>) -> Result<(), Error> {
     let &Context {
         p_own,
+        p_eval,
         p_max,
         circ,
         inputs,
@@ -426,6 +427,9 @@ fn validate(ctx: &Context<impl Channel>) -> Result<(), Error> {
     let Some(expected_inputs) = circ.input_regs.get(p_own) else {
         return Err(Error::PartyDoesNotExist);
     };
+    if p_eval >= p_max {
+        return Err(Error::PartyDoesNotExist);
+    }
     if *expected_inputs != inputs.len() {
         return Err(Error::WrongInputSize {
             expected: *expected_inputs,
@@ -435,8 +439,10 @@ fn validate(ctx: &Context<impl Channel>) -> Result<(), Error> {
     if p_out.is_empty() {
         return Err(Error::MissingOutputParties);
     }
-    for output_party in p_out {
-        if *output_party >= p_max {
+    for (i, output_party) in p_out.iter().enumerate() {
+        // A repeated index would make the parties send (and expect) the opening messages
+        // for that party more than once.
+        if *output_party >= p_max || p_out[..i].contains(output_party) {
             return Err(Error::InvalidOutputParty(*output_party));
         }
     }
